@@ -414,6 +414,8 @@ class FcpV2Transformer(Transformer):
 
         try:
             self.error_logger.add_source(filename.name, source)
+            self.error_logger.add_source(str(filename), source)
+            self.error_logger.add_source(str(pathlib.Path(filename).resolve()), source)
             fcp_ast = fcp_parser.parse(source)
         except (UnexpectedCharacters, UnexpectedEOF) as e:
             line = e.line if e.line > 0 else len(source.split("\n"))
@@ -559,6 +561,7 @@ def _get_fcp(
 ) -> Result[v2.FcpV2, FcpError]:
     source = filesystem_proxy.read(filename)
     logger.add_source(filename.name, source)
+    logger.add_source(str(filename), source)
     try:
         fcp_ast = fcp_parser.parse(source)
     except (UnexpectedCharacters, UnexpectedEOF) as e:
